@@ -208,6 +208,8 @@ class Spec:
             acts += ["l:req:1", "l:req:1:es", "l:req:3:es", "l:reqbad:1", "l:reqbad:3"]
         else:
             acts += ["l:reqlike:2"]           # a server application tries to open stream 2 with a request-shaped block
+            # what the server application sends (1xx, response, response + END_STREAM) never changes what the peer may still send
+            acts += ["l:info:1", "l:resp:1", "l:resp:1:es"]
         acts += ["l:rst:1", "l:rst:2", "cleanup"]
         return acts
 
@@ -237,6 +239,9 @@ class Spec:
                 if o.kind == "ok":
                     bad("refusal-expected", "send_headers with a self-dependency succeeded")
                 return Step("l-refused-arg", viols)
+            if parts[1] in ("info", "resp"):
+                o = h.api("send_headers", int(parts[2]), H.ni(H.INFO if parts[1] == "info" else H.RESP), end_stream=(parts[-1] == "es"))
+                return Step("l-" + parts[1] + "-" + o.kind, viols)      # refused or not, the path goes on
             if parts[1] == "req":
                 o = h.api("send_headers", int(parts[2]), H.ni(H.REQ_POST), end_stream=(parts[-1] == "es"))
             else:
